@@ -333,15 +333,25 @@ fn judge_(p: &Prog, bits: u32, r: &serde_json::Value) -> Option<Failure> {
             };
             Some(Failure { key, what: format!("an accepted program makes the compiler / VM panic at {}: {}", at, msg), bits, observed: format!("panic at {}: {}", at, msg) })
         }
-        "crash" => Some(Failure {
-            key: format!("abort:{:08x}", fnv(p.main.as_bytes()) as u32),
-            what: "an accepted program aborts the process or hangs it beyond the watchdog".into(),
-            bits,
-            observed: "child process died or stopped answering".into(),
-        }),
+        "crash" => {
+            // stable classes, never a program hash: timeout | out-of-memory | native-stack-overflow |
+            // panic:<location> | signal-<n>
+            let class = r["crash_class"].as_str().unwrap_or("unknown");
+            let msg = r["msg"].as_str().unwrap_or("");
+            match class {
+                // Divergence / resource exhaustion is not "going wrong": an arbitrary accepted
+                // program (mutant, module program) may loop or allocate without bound.  Only the
+                // programs the generator constructs are guaranteed to terminate.
+                // (a native stack overflow of a runaway program is the collector / interpreter running
+                // out of native stack on unboundedly deep data: resource exhaustion as well)
+                "timeout" | "out-of-memory" | "native-stack-overflow" if !p.constructed || p.family == "modules" => None,
+                "timeout" => Some(Failure { key: "hang:watchdog".into(), what: "a generated (terminating) program did not answer within 60 s".into(), bits, observed: msg.to_string() }),
+                _ => Some(Failure { key: format!("abort:{}", class), what: "an accepted program aborts the process".into(), bits, observed: msg.to_string() }),
+            }
+        }
         "interrupted" => {
-            if p.constructed {
-                Some(Failure { key: format!("hang:{:08x}", fnv(p.main.as_bytes()) as u32), what: "a generated (terminating) program had to be interrupted".into(), bits, observed: "interrupted after 4 s".into() })
+            if p.constructed && p.family != "modules" {
+                Some(Failure { key: "hang:interrupted".into(), what: "a generated (terminating) program had to be interrupted".into(), bits, observed: "interrupted after 4 s".into() })
             } else {
                 None
             }
@@ -716,6 +726,10 @@ fn main() {
             }
             if let Some(f) = judge(p, bits, r) {
                 failures.push((pi, f));
+            } else if st == "interrupted" {
+                hist.add("inconclusive:diverges");
+            } else if st == "crash" {
+                hist.add(&format!("inconclusive:{}", r["crash_class"].as_str().unwrap_or("unknown")));
             }
             if r["type"].as_str().map_or(false, |t| t.contains("IO")) {
                 io_typed = true;
@@ -737,7 +751,12 @@ fn main() {
                     n_shape_lines += 1;
                 }
             }
-            if st != "rejected" && st != "checker-panic" {
+            // resource-limit outcomes (watchdog, memory, stack) depend on timing and on how much the
+            // setting makes the program allocate: they take no part in the cross-setting comparison
+            let resource = st == "interrupted" || st == "crash" || (st == "error" && matches!(r["class"].as_str(), Some("oom") | Some("stackoverflow")));
+            if resource {
+                hist.add("resource-limit-outcome");
+            } else if st != "rejected" && st != "checker-panic" {
                 outcomes.entry(outcome_of(r)).or_default().push(bits);
             } else {
                 hist.add("rejected-under-some-setting");
@@ -762,7 +781,10 @@ fn main() {
             let mut which = vec![];
             for i in 0..5 {
                 let differs = rs.iter().any(|(b, r)| rs.get(&(b ^ (1 << i))).map_or(false, |r2| {
-                    let ok = |x: &serde_json::Value| !matches!(x["status"].as_str(), Some("rejected") | Some("checker-panic"));
+                    let ok = |x: &serde_json::Value| {
+                        !matches!(x["status"].as_str(), Some("rejected") | Some("checker-panic") | Some("interrupted") | Some("crash"))
+                            && !matches!(x["class"].as_str(), Some("oom") | Some("stackoverflow"))
+                    };
                     ok(r) && ok(r2) && outcome_of(r) != outcome_of(r2) && !(i == 3 && io_typed)
                 }));
                 if differs {
